@@ -18,7 +18,7 @@ CHECKS = {
     "C01": dict(
         engine="specwalk+lexenum", category="model_checking", design="DESIGN.md section 5, C01",
         technique="exhaustive walk of the finite specification graph (every reachable element type x sub-element edge x attribute x character-data spec, per version) instantiated as documents by an independent printer, plus bounded exhaustive value/encoding/layout enumeration; every document executed on the real loader and serializer and compared with the generator's tree",
-        text="For each of the 21 versions a generator builds documents (abstract trees printed by the harness's own XML printer in 1-4 layouts/quote/entity styles) containing every (element type, sub-element) edge, every attribute and every character-data spec valid in that version; the loaded model must equal the generator's tree, load->serialize->load must be the identity (tree, path index, referrer keys) and the second serialization byte-identical, strict and lenient, with no warnings. For one slot per distinct character-data spec (element, attribute and mixed position) all strings of <= 3 (4) characters over a 12-character alphabet of escapable/whitespace/unicode characters, all pattern members through every automaton transition, enum items and numeric forms are written in every entity encoding x quote style x layout. Hand-written specials cover comments and processing instructions in every position.",
+        text="For each of the 21 versions a generator builds documents (abstract trees printed by the harness's own XML printer in 1-4 layouts/quote/entity styles) containing every (element type, sub-element) edge, every attribute and every character-data spec valid in that version; the loaded model must equal the generator's tree, load->serialize->load must be the identity (tree, path index, referrer keys) and the second serialization byte-identical, strict and lenient, with no warnings. For one slot per distinct character-data spec (element, attribute and mixed position) all strings of <= 3 (4) characters over a 12-character alphabet of escapable/whitespace/unicode characters, all pattern members through every automaton transition, enum items and numeric forms are written in every entity encoding x quote style x layout. Hand-written specials cover comments and processing instructions in every position; a document with comments inside character data (names, enum values, numbers, references, entities next to the comment) must load to the model of the same document without them.",
         note="Trusted: the harness printer and the whitespace rule of DESIGN section 8 (whitespace-only runs and outer whitespace of non-preserving kinds are insignificant). Values longer than the bound and encodings other than UTF-8 are outside."),
     "C02": dict(
         engine="lexenum", category="exploration", design="DESIGN.md section 5, C02",
@@ -29,42 +29,42 @@ CHECKS = {
         engine="histx", category="model_checking", design="DESIGN.md sections 3 and 5, C03",
         technique='explicit-state breadth-first search over histories of public API calls executed on the real model (states = histories replayed from seed models, merged by a canonical form of files, tree, membership, path index and referrer lists); invariants evaluated in every state, transition oracles on every transition',
         text="All histories of depth <= 2 (thorough 3) over create / create-at / named / copy / move / remove / rename / SHORT-NAME edit / sort (and, to depth 2, the file operations and the full alphabet) from six seed models; in every state the harness's own walk must agree with parent(), position(), get_sub_element_at(), model(), sub_elements(), and the model-, element- and file-scoped depth-first iterators with and without depth limit; after every transition every place-dependent method is called through every handle that is no longer reachable from the root (20 methods x up to 12 stale handles): each must fail and the live model's canonical form must not change.",
-        note='Trusted: equal canonical forms have equal futures; stale handles are swept per transition replay rather than kept in the state key. Histories longer than the depth bound and universes other than the eight seed models (and the second model that elements are moved to and from) are outside. A transition that hits a recorded known finding of any property is not expanded.'),
+        note='Trusted: equal canonical forms have equal futures; stale handles are swept per transition replay rather than kept in the state key. Histories longer than the depth bound and universes other than the nine seed models (and the second model that elements are moved to and from) are outside. A transition that hits a recorded known finding of any property is not expanded.'),
     "C04": dict(
         engine="histx", category="model_checking", design="DESIGN.md sections 3 and 5, C04",
         technique='explicit-state breadth-first search over histories of public API calls executed on the real model (states = histories replayed from seed models, merged by a canonical form of files, tree, membership, path index and referrer lists); invariants evaluated in every state, transition oracles on every transition',
         text="Same exploration (tree, file/load and full alphabets). In every state: every identifiable element's path() equals the concatenation of the item names of its identifiable ancestors, no two elements share a path, identifiable_elements() lists exactly these (path, element) pairs once, get_element_by_path returns that very element and returns nothing for seven near-miss variants of every path.",
-        note='Trusted: equal canonical forms have equal futures; stale handles are swept per transition replay rather than kept in the state key. Histories longer than the depth bound and universes other than the eight seed models (and the second model that elements are moved to and from) are outside. A transition that hits a recorded known finding of any property is not expanded.'),
+        note='Trusted: equal canonical forms have equal futures; stale handles are swept per transition replay rather than kept in the state key. Histories longer than the depth bound and universes other than the nine seed models (and the second model that elements are moved to and from) are outside. A transition that hits a recorded known finding of any property is not expanded.'),
     "C05": dict(
         engine="histx", category="model_checking", design="DESIGN.md sections 3 and 5, C05",
         technique='explicit-state breadth-first search over histories of public API calls executed on the real model (states = histories replayed from seed models, merged by a canonical form of files, tree, membership, path index and referrer lists); invariants evaluated in every state, transition oracles on every transition',
         text='Histories over reference-related operations (set_reference_target, set_character_data on references with every existing / dangling / future path, remove_character_data, DEST edits, rename, move within and between models, remove, copy, load). In every state: for every key of the referrer map (hook), every path and every reference text the live entries of get_references_to equal the references in the tree with that text; check_references equals the set of references whose text does not resolve or whose DEST does not fit; a reference is absent from the report exactly when get_reference_target returns the element the walk finds.',
-        note='Trusted: equal canonical forms have equal futures; stale handles are swept per transition replay rather than kept in the state key. Histories longer than the depth bound and universes other than the eight seed models (and the second model that elements are moved to and from) are outside. A transition that hits a recorded known finding of any property is not expanded.'),
+        note='Trusted: equal canonical forms have equal futures; stale handles are swept per transition replay rather than kept in the state key. Histories longer than the depth bound and universes other than the nine seed models (and the second model that elements are moved to and from) are outside. A transition that hits a recorded known finding of any property is not expanded.'),
     "C06": dict(
         engine="histx", category="model_checking", design="DESIGN.md sections 3 and 5, C06",
         technique='explicit-state breadth-first search over histories of public API calls executed on the real model (states = histories replayed from seed models, merged by a canonical form of files, tree, membership, path index and referrer lists); invariants evaluated in every state, transition oracles on every transition',
         text='Every rename and same-model move / move-at transition of the reference alphabet from seeds with several referrers per target, nested targets, /a1 vs /a10 prefixes, dangling references equal to future paths: every reference that designated the moved element or an identifiable element below it designates the same element object afterwards, every other reference keeps its text and, if it designated an element outside the moved subtree, still designates that element - also when the destination already holds the name of the moved element and its first replacement name (dangling references below the old path: either outcome).',
-        note='Trusted: equal canonical forms have equal futures; stale handles are swept per transition replay rather than kept in the state key. Histories longer than the depth bound and universes other than the eight seed models (and the second model that elements are moved to and from) are outside. A transition that hits a recorded known finding of any property is not expanded.'),
+        note='Trusted: equal canonical forms have equal futures; stale handles are swept per transition replay rather than kept in the state key. Histories longer than the depth bound and universes other than the nine seed models (and the second model that elements are moved to and from) are outside. A transition that hits a recorded known finding of any property is not expanded.'),
     "C10": dict(
         engine="histx", category="model_checking", design="DESIGN.md sections 3 and 5, C10",
         technique='explicit-state breadth-first search over histories of public API calls executed on the real model (states = histories replayed from seed models, merged by a canonical form of files, tree, membership, path index and referrer lists); invariants evaluated in every state, transition oracles on every transition',
         text="Histories over create_file, remove_file, add_to_file, remove_from_file, set_filename, set_version, load_buffer (8 documents), named creation and removal from one- and two-file seeds. In every state: local file sets are subsets of the model's files and of the parent's effective set, every element is in some file's view, file-scoped iteration equals the membership-derived view, and every file's text loads on its own and has exactly the elements attributed to it; remove_file removes exactly the elements attributed to that file alone and leaves the content of every other file unchanged.",
-        note='Trusted: equal canonical forms have equal futures; stale handles are swept per transition replay rather than kept in the state key. Histories longer than the depth bound and universes other than the eight seed models (and the second model that elements are moved to and from) are outside. A transition that hits a recorded known finding of any property is not expanded.'),
+        note='Trusted: equal canonical forms have equal futures; stale handles are swept per transition replay rather than kept in the state key. Histories longer than the depth bound and universes other than the nine seed models (and the second model that elements are moved to and from) are outside. A transition that hits a recorded known finding of any property is not expanded.'),
     "C11": dict(
         engine="histx", category="model_checking", design="DESIGN.md sections 3 and 5, C11",
         technique='explicit-state breadth-first search over histories of public API calls executed on the real model (states = histories replayed from seed models, merged by a canonical form of files, tree, membership, path index and referrer lists); invariants evaluated in every state, transition oracles on every transition',
         text='Every failing call of the full alphabet (invalid names, duplicate names, invalid positions, foreign handles, descendants as destination, version mismatch, loads failing in the lexer, parser, merge and overlap stages) in every state to depth 1 (thorough 2), file operations to depth 2 (3): the canonical form of both models (tree with all values and comments, files, membership, path index, referrer lists over all keys) is identical before and after.',
-        note='Trusted: equal canonical forms have equal futures; stale handles are swept per transition replay rather than kept in the state key. Histories longer than the depth bound and universes other than the eight seed models (and the second model that elements are moved to and from) are outside. A transition that hits a recorded known finding of any property is not expanded.'),
+        note='Trusted: equal canonical forms have equal futures; stale handles are swept per transition replay rather than kept in the state key. Histories longer than the depth bound and universes other than the nine seed models (and the second model that elements are moved to and from) are outside. A transition that hits a recorded known finding of any property is not expanded.'),
     "C12": dict(
         engine="histx", category="model_checking", design="DESIGN.md sections 3 and 5, C12",
         technique='explicit-state breadth-first search over histories of public API calls executed on the real model (states = histories replayed from seed models, merged by a canonical form of files, tree, membership, path index and referrer lists); invariants evaluated in every state, transition oracles on every transition',
         text='Every transition of the full alphabet to depth 1 (thorough 2) and of the structural core to depth 2 (3) from all seeds including the leniently loaded one, under the sequential lock hook: no panic, no ParentElementLocked, no blocking acquisition of a lock the calling thread already holds (turned into a report instead of a hang), no lock left held; after every transition ~60 read-only methods on every element, file and model and every place-dependent method through stale handles. Value-level API: every string of <= 3 (thorough 4) characters over 20 characters incl. 2-, 3-, 4-byte UTF-8, plus texts at the limits of the numeric types and long digit runs, through every public function that takes or interprets a text (also lenient load + compare + sort). Specification API: every u32 with <= 2 bits set, complements and extremes as version mask / value; every element type with its listed names and the index lists returned for them.',
-        note='Trusted: equal canonical forms have equal futures; stale handles are swept per transition replay rather than kept in the state key. Histories longer than the depth bound and universes other than the eight seed models (and the second model that elements are moved to and from) are outside. A transition that hits a recorded known finding of any property is not expanded.'),
+        note='Trusted: equal canonical forms have equal futures; stale handles are swept per transition replay rather than kept in the state key. Histories longer than the depth bound and universes other than the nine seed models (and the second model that elements are moved to and from) are outside. A transition that hits a recorded known finding of any property is not expanded.'),
     "C13": dict(
         engine="histx", category="model_checking", design="DESIGN.md sections 3 and 5, C13",
         technique='explicit-state breadth-first search over histories of public API calls executed on the real model (states = histories replayed from seed models, merged by a canonical form of files, tree, membership, path index and referrer lists); invariants evaluated in every state, transition oracles on every transition',
         text="Every copy / copy-at transition (any live or foreign element into any plausible parent): content equals the source filtered by what the destination's version permits, apart from a numeric suffix on the copy's own name; every copied identifiable resolves by its path and every copied reference is listed; no element object is shared; the source model is unchanged. duplicate() in every state to depth 1: per-file text, tree, membership and indexes equal, and every operation of the full alphabet applied to either side leaves the other side's canonical form unchanged. Cross-version copy: the full-coverage document of 4 (thorough: 21) source versions, every top-level package copied into an empty model of each of the 21 versions: copy equals the specification-filtered source, destination validates and loads strictly, indexes complete, source unchanged.",
-        note='Trusted: equal canonical forms have equal futures; stale handles are swept per transition replay rather than kept in the state key. Histories longer than the depth bound and universes other than the eight seed models (and the second model that elements are moved to and from) are outside. A transition that hits a recorded known finding of any property is not expanded.'),
+        note='Trusted: equal canonical forms have equal futures; stale handles are swept per transition replay rather than kept in the state key. Histories longer than the depth bound and universes other than the nine seed models (and the second model that elements are moved to and from) are outside. A transition that hits a recorded known finding of any property is not expanded.'),
     "C09": dict(
         engine="histx", category="model_checking", design="DESIGN.md section 5, C09",
         technique="exhaustive enumeration of file distributions: every assignment of a non-empty file subset to every child of a splittable element of eight master models, sibling-order and version variants, every load order; every merge executed on the real loader and compared with the master tree and with each file loaded alone",
@@ -73,7 +73,7 @@ CHECKS = {
     "C14": dict(
         engine="histx", category="model_checking", design="DESIGN.md section 5, C14",
         technique="exhaustive permutation enumeration: every sub-multiset (up to a size) of an item pool per scenario, created in every order, sorted by the real code; results compared across all orders of one multiset; plus the complete comparison matrix of Element::cmp over finite universes of real elements (every identifier of <= 3 / 4 characters over {a,b,0,1,2,_} and extreme digit runs; containers name x INDEX; parameter values DEFINITION-REF x INDEX x VALUE; references DEST x text; float-valued content) checked for the total-preorder axioms",
-        text="Comparator axioms: reflexive, antisymmetric, transitive on every universe, distinct names / float values never equal. Eight scenarios (key-less siblings with unsorted content; packages with names a, a1, a2, a10, a1b, b; mixed kinds in an ELEMENTS bag; containers with INDEX values incl. 0x2; parameter values keyed by DEFINITION-REF with equal keys, different values and comments; references ordered by DEST; two ordered parents) x every sub-multiset of <= 5 (thorough 7) siblings x every distinct creation order: sort never panics, keeps every element object, value, attribute and comment, leaves ordered parents untouched, keeps all path/reference invariants and strict loadability, is idempotent, and gives the same text (comments aside) for every creation order.",
+        text="Comparator axioms: reflexive, antisymmetric, transitive on every universe, distinct names / float values never equal. Eight scenarios (key-less siblings with unsorted content; packages with names a, a1, a2, a10, a1b, b; mixed kinds in an ELEMENTS bag; containers with INDEX values incl. 0x2; parameter values keyed by DEFINITION-REF with equal keys, different values and comments; references ordered by DEST; two ordered parents) x every sub-multiset of <= 5 (thorough 7) siblings x every distinct creation order: sort never panics, keeps every element object, value, attribute and comment, leaves ordered parents untouched, keeps all path/reference invariants and strict loadability, is idempotent, and gives the same text (comments aside) for every creation order. Full documents: the full-coverage document of 5 (21) versions sorted through AutosarModel::sort and through Element::sort per package keeps the specification order of that version everywhere, loses nothing, and the same document with the children of every sortable parent reversed sorts to the same text.",
         note="Trusted: comparison with comments removed (siblings identical up to comments may keep their order). Item pools are fixed; other names and sibling counts above the bound are outside."),
     "C15": dict(
         engine="schedx", category="model_checking", design="DESIGN.md sections 4 and 5, C15",
@@ -113,7 +113,7 @@ CHECKS = {
     "C20": dict(
         engine="dfaconf", category="model_checking", design="DESIGN.md section 5, C20",
         technique="exhaustive enumeration of all members (up to a length bound) of the integer/numerical/boolean pattern automata and of value alphabets, each executed on the real parse/format functions and compared with an independent integer-arithmetic reference",
-        text="Every member of length <= 8 (thorough 10) of the integer, numerical and boolean patterns over a 19-character alphabet plus ~550 boundary texts (2^k-1, 2^k, 2^k+1 in every radix for k up to 128, extreme exponents) is interpreted with parse_integer for 12 integer types, parse_float and parse_bool and compared with a big-integer reference (correct rounding half-to-even, bound to std on decimal forms). 49152 f64 bit patterns (every exponent x sign x 12 mantissas), ~330 u64 boundary values and all strings of <= 3 (4) characters over an escapable alphabet are formatted and parsed back through set_attribute_string and through serialize+load; every enum item of every attribute enum spec is round-tripped in 4 (21) versions.",
+        text="Every member of length <= 8 (thorough 10) of the integer, numerical and boolean patterns over a 19-character alphabet plus ~550 boundary texts (2^k-1, 2^k, 2^k+1 in every radix for k up to 128, extreme exponents) is interpreted with parse_integer for 12 integer types, parse_float and parse_bool and compared with a big-integer reference (correct rounding half-to-even, bound to std on decimal forms). 49152 f64 bit patterns (every exponent x sign x 12 mantissas), ~330 u64 boundary values and all strings of <= 3 (4) characters over an escapable alphabet are formatted and parsed back through set_attribute_string and through serialize+load; every enum item of every attribute enum spec is round-tripped in 4 (21) versions. Typed slots: every member of <= 5 (6) characters of the three patterns and the boundary texts is set on a character element whose specification is that pattern (accepted, read back unchanged, interpreted like the reference) and loaded strictly from a file holding it.",
         note="Trusted: the reference arithmetic in harness/src/common/bignum.rs. Values outside the alphabets and texts longer than the bound are not covered. Whitespace-only strings are not values in the file route."),
 }
 
